@@ -100,6 +100,10 @@ pub trait Backend: 'static + Send + Sync {
     /// k < r
     fn mul_fr(a: &Self::E, k: &N) -> Self::E;
     fn mul_limbs(a: &Self::E, limbs: &[u64]) -> Self::E;
+    /// constant-time integer ladder where the configuration has one
+    fn mul_limbs_ct(a: &Self::E, limbs: &[u64]) -> Self::E;
+    /// constant-time selection where the configuration has one: `b` if choice else `a`
+    fn select(a: &Self::E, b: &Self::E, choice: bool) -> Self::E;
     fn affine_roundtrip(a: &Self::E) -> Self::E;
     /// internal extended coordinates (X, Y, Z, T) through the read-only hook
     fn coords(e: &Self::E) -> [N; 4];
@@ -157,6 +161,17 @@ impl Backend for Ark {
     fn mul_limbs(a: &Self::E, limbs: &[u64]) -> Self::E {
         use ark_ec::Group;
         a.mul_bigint(limbs)
+    }
+    fn mul_limbs_ct(a: &Self::E, limbs: &[u64]) -> Self::E {
+        use ark_ec::Group;
+        a.mul_bigint(limbs)
+    }
+    fn select(a: &Self::E, b: &Self::E, choice: bool) -> Self::E {
+        if choice {
+            *b
+        } else {
+            *a
+        }
     }
     fn affine_roundtrip(a: &Self::E) -> Self::E {
         use ark_ec::{AffineRepr, CurveGroup};
@@ -219,6 +234,23 @@ impl Backend for Min {
     }
     fn mul_limbs(a: &Self::E, limbs: &[u64]) -> Self::E {
         a.scalar_mul_vartime(limbs)
+    }
+    fn mul_limbs_ct(a: &Self::E, limbs: &[u64]) -> Self::E {
+        a.scalar_mul(limbs)
+    }
+    fn select(a: &Self::E, b: &Self::E, choice: bool) -> Self::E {
+        use subtle::{Choice, ConditionallySelectable};
+        let mut x = min::Element::conditional_select(a, b, Choice::from(choice as u8));
+        // the assign / swap forms must agree with select
+        let mut y = *a;
+        y.conditional_assign(b, Choice::from(choice as u8));
+        let (mut p, mut q) = (*a, *b);
+        min::Element::conditional_swap(&mut p, &mut q, Choice::from(choice as u8));
+        if y.verif_xyzt() != x.verif_xyzt() || p.verif_xyzt() != x.verif_xyzt() {
+            // make the disagreement visible to every oracle: an impossible element
+            x = min::Element::conditional_select(&x, &(x + min::Element::GENERATOR), Choice::from(1));
+        }
+        x
     }
     fn affine_roundtrip(a: &Self::E) -> Self::E {
         *a
